@@ -331,7 +331,76 @@ def run_near_limit(req):
     return {"obs": obs[:3], "stats": stats}
 
 
+class BareNamespace:
+    """the least a namespace for exec() / eval() has to offer: item access"""
+
+    def __init__(self):
+        self.d = {}
+
+    def __getitem__(self, k):
+        return self.d[k]
+
+    def __setitem__(self, k, v):
+        self.d[k] = v
+
+    def __delitem__(self, k):
+        del self.d[k]
+
+
+def run_bare_namespace(req):
+    """module-level code that is a coroutine (top-level await, as in `python -m asyncio` or notebooks), evaluated with a
+    local namespace that is no dict: observed while suspended inside __aenter__ (nothing entered yet), in the body, and
+    inside __aexit__"""
+    import ast
+    import types
+    obs = []
+    log = []
+
+    @types.coroutine
+    def trap(tag):
+        yield tag
+
+    class ACM:
+        async def __aenter__(self):
+            await trap("entering")
+            log.append("entered")
+            return self
+
+        async def __aexit__(self, *a):
+            log.append("exiting")
+            await trap("exiting")
+            log.append("exited")
+
+    src = "async with ACM() as acm:\n    await trap('body')\nawait trap('after')\n"
+    code = compile(src, "<toplevel-await>", "exec", flags=ast.PyCF_ALLOW_TOP_LEVEL_AWAIT)
+    for ns_kind in ("dict", "bare"):
+        ns = {} if ns_kind == "dict" else BareNamespace()
+        mgr_type = ACM
+        co = eval(code, {"ACM": ACM, "trap": trap}, ns)
+        del log[:]
+        points = []
+        try:
+            while True:
+                tag = co.send(None)
+                with warnings.catch_warnings(record=True) as w:
+                    warnings.simplefilter("always")
+                    st = extract(co)
+                got = [(type(c.obj).__name__ if c.obj is not None else None, c.is_exiting) for c in st.frames[0].contexts]
+                want = {"entering": [], "body": [("ACM", False)], "exiting": [("ACM", True)], "after": []}[tag]
+                if got != want or w or st.error is not None:
+                    obs.append({"kind": "toplevel_await_in_a_%s_namespace" % ns_kind, "at": tag, "got": got, "want": want,
+                                "warnings": [str(x.message)[:90] for x in w], "error": repr(st.error)})
+                points.append(tag)
+        except StopIteration:
+            pass
+        if points != ["entering", "body", "exiting", "after"]:
+            return {"harness_error": "unexpected suspension points %r" % (points,)}
+    return {"obs": obs[:3], "stats": {"points": 8}}
+
+
 def handle(req):
+    if req["op"] == "modes.bare_namespace":
+        return run_bare_namespace(req)
     if req["op"] == "modes.near_limit":
         return run_near_limit(req)
     if req["op"] == "modes.failed_selftest":
